@@ -747,3 +747,240 @@ Theorem dot_broadcast2 (arr : list arv) :
   wfb2 (map tokarr arr) -> run (c1 items) init_state arr = (outs_b2 [] arr, None).
 Proof. intros W. apply (run_b2 arr [] (fun _ => [])); auto. apply Inv_nil. Qed.
 End B2.
+
+(* ---------- corollaries: exactly one combination per complete key; order independence ---------- *)
+Lemma flat_map_filter {A B} (b : A -> bool) (f : A -> B) : forall l,
+  flat_map (fun k => if b k then [f k] else []) l = map f (filter b l).
+Proof. induction l as [|a l IH]; simpl; auto. destruct (b a); simpl; now rewrite IH. Qed.
+
+Lemma filter_or_perm {A} (p q : A -> bool) : forall l,
+  (forall k, In k l -> p k = true -> q k = false) ->
+  Permutation (filter (fun k => p k || q k) l) (filter p l ++ filter q l).
+Proof.
+  induction l as [|a l IH]; intros H; simpl; auto.
+  assert (IH' := IH (fun k Hk => H k (or_intror Hk))).
+  destruct (p a) eqn:Pa; simpl.
+  - rewrite (H a (or_introl eq_refl) Pa). now constructor.
+  - destruct (q a); simpl; auto. apply Permutation_cons_app. exact IH'.
+Qed.
+
+Section B2Cor.
+Variable items : list string.
+Variable r : string.
+Variable DP : list string.
+Let n := length items.
+
+Definition complete_b (l : list garv) (k : string) : bool := Nat.eqb (length (bsel r k l)) n.
+(* one combination per complete key, made of the key's tokens, in order of first occurrence of the key *)
+Definition gdone (l : list garv) : list schema :=
+  map (fun k => gcombo (bsel r k l)) (filter (complete_b l) (gtags l)).
+
+Lemma done_step_b (l : list garv) (x : garv) :
+  wfb2 items r DP (l ++ [x]) -> Permutation (gdone (l ++ [x])) (gdone l ++ emission_b items r l x).
+Proof.
+  intros W. set (c := complete_b l). set (c' := complete_b (l ++ [x])).
+  set (newly := fun k => negb (c k) && c' k).
+  assert (Keep : forall k, c k = true -> bsel r k (l ++ [x]) = bsel r k l).
+  { intros k Hk. rewrite bsel_snoc. destruct (counts r k x) eqn:C; [|now rewrite app_nil_r].
+    exfalso. pose proof (lt_counts items r DP k l x W C) as Lt. unfold c, complete_b in Hk.
+    apply Nat.eqb_eq in Hk. fold n in Lt. rewrite Hk in Lt. exact (Nat.lt_irrefl _ Lt). }
+  assert (Mono : forall k, c k = true -> c' k = true).
+  { intros k Hk. unfold c', complete_b. rewrite (Keep k Hk). exact Hk. }
+  assert (E1 : filter c' (gtags (l ++ [x])) = filter (fun k => c k || newly k) (gtags (l ++ [x]))).
+  { apply filter_ext. intros k. unfold newly. destruct (c k) eqn:Ck; simpl; auto. }
+  unfold gdone. fold c c'. rewrite E1.
+  eapply Permutation_trans; [apply Permutation_map, filter_or_perm|].
+  { intros k _ Hk. unfold newly. now rewrite Hk. }
+  rewrite map_app. apply Permutation_app.
+  - (* the keys complete before: same keys, same tokens *)
+    assert (E2 : filter c (gtags (l ++ [x])) = filter c (gtags l)).
+    { rewrite gtags_snoc. unfold add_tag. destruct (existsb (String.eqb (gatag x)) (gtags l)) eqn:E; auto.
+      rewrite filter_app. simpl.
+      assert (c (gatag x) = false) as ->; [|now rewrite app_nil_r].
+      destruct (c (gatag x)) eqn:Cg; auto. exfalso.
+      assert (C : counts r (gatag x) x = true) by (unfold counts; rewrite String.eqb_refl; apply orb_true_r).
+      pose proof (lt_counts items r DP _ l x W C) as Lt. unfold c, complete_b in Cg. apply Nat.eqb_eq in Cg.
+      fold n in Lt. rewrite Cg in Lt. exact (Nat.lt_irrefl _ Lt). }
+    rewrite E2. apply Permutation_refl'. apply map_ext_in. intros k Hk. apply filter_In in Hk.
+    now rewrite (Keep k (proj2 Hk)).
+  - unfold emission_b. rewrite flat_map_filter. apply Permutation_refl'. f_equal.
+Qed.
+
+Lemma outs_b2_snoc : forall rest arrived y,
+  concat (outs_b2 items r arrived (rest ++ [y])) =
+  concat (outs_b2 items r arrived rest) ++ emission_b items r (arrived ++ map tokarr rest) (tokarr y).
+Proof.
+  induction rest as [|a rest IH]; intros arrived y; simpl.
+  - now rewrite !app_nil_r.
+  - rewrite IH, <- !app_assoc. simpl. reflexivity.
+Qed.
+
+(* exactly one combination per complete key, nothing else *)
+Theorem broadcast_exactly_one : forall arr,
+  wfb2 items r DP (map tokarr arr) ->
+  Permutation (concat (outs_b2 items r [] arr)) (gdone (map tokarr arr)).
+Proof.
+  induction arr as [|y l IH] using rev_ind; intros W.
+  - simpl. constructor.
+  - rewrite outs_b2_snoc. simpl app. rewrite map_app in *. simpl map in *.
+    eapply Permutation_trans; [|apply Permutation_sym, done_step_b; exact W].
+    apply Permutation_app_tail. apply IH. eapply wfb2_prefix; exact W.
+Qed.
+End B2Cor.
+
+(* ---------- order independence ---------- *)
+Lemma get_tag_two r k : 1 <= String.length r -> String.length r < String.length k ->
+  forall l out, (forall g, In g l -> g = r \/ g = k) ->
+  (out = k \/ (String.length out < String.length k /\ In k l)) ->
+  fold_left (fun out t => if Nat.ltb (String.length out) (String.length t) then t else out) l out = k.
+Proof.
+  intros Hr Hk. induction l as [|g l IH]; intros out Hl Ho; simpl.
+  - destruct Ho as [?|[_ []]]; auto.
+  - apply IH; [intros; apply Hl; simpl; auto|].
+    destruct (Hl g (or_introl eq_refl)) as [->| ->].
+    + destruct Ho as [->|[Lo [E|Hin]]].
+      * left. destruct (Nat.ltb_spec (String.length k) (String.length r)); auto. lia.
+      * subst. lia.
+      * right. split; auto. destruct (Nat.ltb_spec (String.length out) (String.length r)); lia.
+    + destruct Ho as [->|[Lo _]].
+      * left. now rewrite Nat.ltb_irrefl.
+      * left. destruct (Nat.ltb_spec (String.length out) (String.length k)); auto. lia.
+Qed.
+
+Lemma filter_map_comm {A B} (f : A -> B) (P : B -> bool) : forall l, filter P (map f l) = map f (filter (fun x => P (f x)) l).
+Proof. induction l as [|a l IH]; simpl; auto. destruct (P (f a)); simpl; now rewrite IH. Qed.
+
+Lemma gcombo_tok (a : list arv) : NoDup (map fst a) -> gcombo (map tokarr a) = Flat.combo a.
+Proof.
+  intros ND. unfold gcombo, Flat.combo.
+  change (map tokarr a) with (map (fun x : string * tok => (fst x, ETok (snd x))) a).
+  rewrite (Flat.merge_ones a []) by exact ND. simpl.
+  unfold atag. rewrite map_map. reflexivity.
+Qed.
+
+Section B2Ord.
+Variable items : list string.
+Variable r : string.
+Variable DP : list string.
+Let n := length items.
+
+Lemma wfb2_perm a b : Permutation a b -> wfb2 items r DP a -> wfb2 items r DP b.
+Proof.
+  intros P (A & B & C & D & E & F & G). assert (P' := Permutation_sym P).
+  split; auto. split; auto. split; auto. split; [|split; [|split]].
+  - intros x Hx. apply D. eapply Permutation_in; eauto.
+  - eapply Permutation_NoDup; [|exact E]. now apply Permutation_map.
+  - intros x Hx. apply F. eapply Permutation_in; eauto.
+  - intros x y Hx Hy. apply G; eapply Permutation_in; eauto.
+Qed.
+
+Theorem broadcast_order_independent (arr1 arr2 : list arv) :
+  wfb2 items r DP (map tokarr arr1) -> Permutation arr1 arr2 ->
+  1 <= String.length r ->
+  (forall a, In a arr1 -> isdeep DP (tokarr a) = true -> String.length r < String.length (atag a)) ->
+  snd (run (c1 items) init_state arr1) = None /\ snd (run (c1 items) init_state arr2) = None /\
+  bag_eq (concat (fst (run (c1 items) init_state arr1))) (concat (fst (run (c1 items) init_state arr2))).
+Proof.
+  intros W1 P Hr Hlen.
+  assert (PM : Permutation (map tokarr arr1) (map tokarr arr2)) by now apply Permutation_map.
+  pose proof (wfb2_perm _ _ PM W1) as W2.
+  rewrite (dot_broadcast2 items r DP arr1 W1), (dot_broadcast2 items r DP arr2 W2). simpl.
+  split; auto. split; auto.
+  set (l1 := map tokarr arr1) in *. set (l2 := map tokarr arr2) in *.
+  set (T2 := filter (complete_b items r l2) (gtags l2)).
+  exists (map (fun k => gcombo (bsel r k l1)) T2), (gdone items r l2). split; [|split].
+  - eapply Permutation_trans; [apply (broadcast_exactly_one items r DP); exact W1|].
+    unfold gdone. apply Permutation_map.
+    assert (PT : Permutation (gtags l1) (gtags l2)).
+    { destruct (gtags_spec l1) as [N1 M1]. destruct (gtags_spec l2) as [N2 M2].
+      apply NoDup_Permutation; auto. intros g. rewrite M1, M2.
+      split; apply Permutation_in; [|apply Permutation_sym]; now apply Permutation_map. }
+    unfold T2. rewrite (filter_ext (complete_b items r l2) (complete_b items r l1)).
+    + now apply Permutation_filter'.
+    + intros g. unfold complete_b, bsel. f_equal. apply Permutation_length, Permutation_filter'. now apply Permutation_sym.
+  - apply (broadcast_exactly_one items r DP). exact W2.
+  - unfold gdone. fold T2. apply Forall2_map2'. intros k Hk. unfold T2 in Hk. apply filter_In in Hk.
+    destruct Hk as [_ Ck]. unfold complete_b in Ck. apply Nat.eqb_eq in Ck.
+    (* the tokens of key k under the two orders *)
+    unfold l1, l2, bsel. rewrite !filter_map_comm.
+    set (a1 := filter (fun x => counts r k (tokarr x)) arr1). set (a2 := filter (fun x => counts r k (tokarr x)) arr2).
+    assert (PA : Permutation a1 a2) by (unfold a1, a2; now apply Permutation_filter').
+    assert (E1 : map tokarr a1 = bsel r k l1) by (unfold a1, l1, bsel; now rewrite filter_map_comm).
+    assert (E2 : map tokarr a2 = bsel r k l2) by (unfold a2, l2, bsel; now rewrite filter_map_comm).
+    assert (ND1 : NoDup (map fst a1)).
+    { pose proof (ports_nodup items r DP k _ W1) as ND. fold l1 in ND. rewrite <- E1, map_map in ND. exact ND. }
+    assert (ND2 : NoDup (map fst a2)).
+    { pose proof (ports_nodup items r DP k _ W2) as ND. fold l2 in ND. rewrite <- E2, map_map in ND. exact ND. }
+    rewrite (gcombo_tok a1 ND1), (gcombo_tok a2 ND2). unfold Flat.combo.
+    (* both tags are k: the key is complete, so it holds a scattered token, whose tag is k and longer than r *)
+    destruct (complete_has_deep items r DP k l2 W2 Ck) as (y & Hy & Dy).
+    rewrite <- E2 in Hy. apply in_map_iff in Hy. destruct Hy as (b & <- & Hb).
+    assert (Hb1 : In b a1) by (eapply Permutation_in; [apply Permutation_sym; exact PA|exact Hb]).
+    assert (Hb0 : In b arr1) by (unfold a1 in Hb1; apply filter_In in Hb1; tauto).
+    assert (Tb : atag b = k).
+    { unfold a2 in Hb. apply filter_In in Hb. destruct Hb as [Hb Cb]. unfold counts in Cb.
+      apply orb_true_iff in Cb. destruct Cb as [Cb|Cb]; apply String.eqb_eq in Cb; auto.
+      exfalso. assert (In (tokarr b) l2) by (unfold l2; now apply in_map).
+      destruct (sod items r DP l2 (tokarr b) W2 H) as [[_ (Ne & _)]|[Nd _]]; [|congruence].
+      apply Ne. exact Cb. }
+    assert (Lk : String.length r < String.length k) by (rewrite <- Tb; apply Hlen; auto).
+    assert (Tags : forall a, (forall y, In y a -> In y a1 \/ In y a2) -> In b a -> get_tag_s (map atag a) = k).
+    { intros a Ha Hba. unfold get_tag_s. apply (get_tag_two r k Hr Lk).
+      - intros g Hg. apply in_map_iff in Hg. destruct Hg as (z & <- & Hz).
+        assert (Cz : counts r k (tokarr z) = true).
+        { destruct (Ha z Hz) as [H|H]; [unfold a1 in H|unfold a2 in H]; apply filter_In in H; tauto. }
+        unfold counts in Cz. apply orb_true_iff in Cz. destruct Cz as [Cz|Cz]; apply String.eqb_eq in Cz; auto.
+      - right. split; [simpl; lia|]. rewrite <- Tb. now apply in_map. }
+    rewrite (Tags a1), (Tags a2); auto.
+    unfold retag. apply Permutation_map, Permutation_map. exact PA.
+Qed.
+End B2Ord.
+
+(* ---------- the same corollary for arbitrary elements (used for nested combinators) ---------- *)
+Section B2Gen.
+Variable items : list string.
+Variable r : string.
+Variable DP : list string.
+
+Fixpoint gemsq (arrived dl : list garv) : list schema :=
+  match dl with
+  | [] => []
+  | y :: rest => emission_b items r arrived y ++ gemsq (arrived ++ [y]) rest
+  end.
+Lemma gemsq_snoc : forall dl arrived y,
+  gemsq arrived (dl ++ [y]) = gemsq arrived dl ++ emission_b items r (arrived ++ dl) y.
+Proof.
+  induction dl as [|a dl IH]; intros arrived y; simpl.
+  - now rewrite !app_nil_r.
+  - rewrite IH, <- !app_assoc. simpl. reflexivity.
+Qed.
+Theorem gemsq_done : forall dl, wfb2 items r DP dl -> Permutation (gemsq [] dl) (gdone items r dl).
+Proof.
+  induction dl as [|y l IH] using rev_ind; intros W.
+  - simpl. constructor.
+  - rewrite gemsq_snoc. simpl app.
+    eapply Permutation_trans; [|apply Permutation_sym, (done_step_b items r DP); exact W].
+    apply Permutation_app_tail. apply IH. eapply wfb2_prefix; exact W.
+Qed.
+
+(* the single-scattered-port predicate of GBcast is the DP = [dp] instance *)
+Lemma wfb_wfb2 dp l : wfb items r dp l -> wfb2 items r [dp] l.
+Proof.
+  intros (A & B & C & D & E & F).
+  assert (Iso : forall x : garv, isdeep [dp] x = String.eqb (fst x) dp).
+  { intros x. unfold isdeep. simpl. now rewrite orb_false_r. }
+  split; auto. split; [discriminate|]. split; [intros q [<-|[]]; auto|]. split; auto. split; auto. split.
+  - intros x Hx. rewrite Iso. apply E. exact Hx.
+  - intros x y Hx Hy Dx Dy. rewrite Iso in Dx, Dy. apply String.eqb_eq in Dx. apply String.eqb_eq in Dy. now apply F.
+Qed.
+End B2Gen.
+
+(* run-level statement of "exactly one combination per complete key" *)
+Theorem broadcast_bag items r DP (arr : list arv) :
+  wfb2 items r DP (map tokarr arr) ->
+  snd (run (c1 items) init_state arr) = None /\
+  Permutation (concat (fst (run (c1 items) init_state arr))) (gdone items r (map tokarr arr)).
+Proof.
+  intros W. rewrite (dot_broadcast2 items r DP arr W). simpl. split; auto.
+  now apply (broadcast_exactly_one items r DP).
+Qed.
